@@ -109,12 +109,14 @@ def literal_of(v):
     return None
 
 
-def _env(mode: str, partials=None, extra=True):
+def _env(mode: str, partials=None, extra=True, limits=None):
     cfg = {
         "mode": mode,
         "extra": extra,
         "flags": {"ternary_expressions": True, "logical_not_operator": True, "logical_parentheses": True},
     }
+    if limits:
+        cfg["limits"] = dict(limits)
     return envs.make_env(cfg, partials if partials is not None else {"p": "[{{ p }}{{ q }}{{ x }}{{ forloop.index }}]"})
 
 
@@ -207,7 +209,7 @@ def evaluate(case) -> Verdict:
         v.nontrivial = res != "" and not res.startswith("parse")
         v.labels.append("template:" + res)
     elif kind == "src":
-        env = _env(case["mode"], partials=case.get("partials"), extra=case.get("extra", True))
+        env = _env(case["mode"], partials=case.get("partials"), extra=case.get("extra", True), limits=case.get("limits"))
         res = _render_both(v, env, case["src"], gd.decode(case.get("data") or {}), "both")
         v.nontrivial = res != "" and not res.startswith("parse")
         v.labels.append("source:" + res)
@@ -282,6 +284,9 @@ def templates(draw):
     parts["q"] = gg.Gen(r, pp).block(1)
     data = gd.DataGen(r, hostile=True).data()
     data["pname"] = r.choice(["p", "q", "missing", 1])
+    if r.random() < 0.25:
+        # a resource limit small enough to be hit part-way through
+        cfg["limits"] = {r.choice(["output_stream_limit", "output_stream_limit", "loop_iteration_limit", "local_namespace_limit"]): r.choice([0, 1, 3, 8, 20, 60])}
     return {"kind": "tmpl", "cfg": cfg, "main": main, "partials": parts, "data": data}
 
 
@@ -404,6 +409,31 @@ def _aftermath(ctx: core.Ctx, shard: int, nshards: int) -> None:
                              "data": {"items": [1, 2, 3], "a": 1}})
 
 
+# a resource limit that is hit at the top level, inside a block, inside a capture or inside a partial, and what runs after it
+LIMIT_PROVOKE = [
+    ({"output_stream_limit": 5}, "abcdefghij"), ({"output_stream_limit": 5}, "{{ 'abcdefghij' }}"), ({"output_stream_limit": 0}, "x"),
+    ({"output_stream_limit": 5}, "{% for a in (1..9) %}ab{% endfor %}"), ({"output_stream_limit": 5}, "{% capture c %}abcdefghij{% endcapture %}{{ c }}"),
+    ({"output_stream_limit": 5}, "{% include 'brk' %}{% include 'brk' %}{% include 'brk' %}"), ({"output_stream_limit": 5}, "{% render 'p' %}{% render 'p' %}"),
+    ({"output_stream_limit": 5}, "{% ifchanged %}abcdefghij{% endifchanged %}"), ({"output_stream_limit": 5}, "{% tablerow a in (1..3) %}x{% endtablerow %}"),
+    ({"output_stream_limit": 7}, "ééééé"), ({"output_stream_limit": 5}, "{% cycle 'abcdefghij' %}"),
+    ({"loop_iteration_limit": 3}, "{% for a in (1..5) %}x{% endfor %}"), ({"loop_iteration_limit": 3}, "{% for a in (1..2) %}{% for b in (1..2) %}x{% endfor %}{% endfor %}"),
+    ({"loop_iteration_limit": 3}, "{% tablerow a in (1..5) %}x{% endtablerow %}"), ({"loop_iteration_limit": 2}, "{% render 'p' for items %}"),
+    ({"local_namespace_limit": 5}, "{% assign v = 'abcdefghij' %}"), ({"local_namespace_limit": 5}, "{% capture v %}abcdefghij{% endcapture %}"),
+    ({"local_namespace_limit": 5}, "{% for a in (1..3) %}{% assign v = 'abcdefghij' %}{% endfor %}"), ({"local_namespace_limit": 0}, "{% increment a %}{% assign b = 1 %}"),
+]
+
+
+def _limit_aftermath(ctx: core.Ctx, shard: int, nshards: int) -> None:
+    i = 0
+    for limits, pro in LIMIT_PROVOKE:
+        for aft in ["", "tail{{ a }}", *AFTER[::3]]:
+            for mode in MODES:
+                i += 1
+                if i % nshards == shard:
+                    ctx.run({"kind": "src", "src": pro + "|" + aft, "mode": mode, "partials": AFTERMATH_PARTIALS, "limits": limits,
+                             "data": {"items": [1, 2, 3], "a": 1}})
+
+
 def _pumps(ctx: core.Ctx, shard: int, nshards: int, sizes: list) -> None:
     """Deeply nested / very long expressions: recursion in the expression parsers."""
     i = 0
@@ -420,6 +450,7 @@ def _campaign(ctx: core.Ctx, tier: str, shard: int, nshards: int) -> None:
     seed = core.sub_seed(ctx.seed, shard)
     _pumps(ctx, shard, nshards, [200, 1500, 4000] if quick else [200, 1000, 1500, 4000, 20000])
     _aftermath(ctx, shard, nshards)
+    _limit_aftermath(ctx, shard, nshards)
     if quick:
         core.drive(filter_cells(), ctx.run, n=14000 // nshards, seed=seed)
         core.drive(tag_cells(), ctx.run, n=8000 // nshards, seed=seed + 1)
